@@ -495,3 +495,52 @@ def gen_loc(rng, **gk):
     add_locations(rng, g, p=0.7)
     _assign_pids(g)
     return g
+
+
+# ------------------------------------------------------------------------------------------
+# user #[inline] (C14, C17)
+
+
+def nt_refs(g):
+    refs = {}
+    for nt in g.nts:
+        r = set()
+        for alt in nt.alts:
+            for it in alt.items:
+                _refs_of(it.sym, r)
+        refs[nt.name] = r
+    return refs
+
+
+def inlinable(g):
+    """non-pub, non-macro nonterminals that do not reach themselves"""
+    refs = nt_refs(g)
+
+    def reaches_self(n):
+        seen = set()
+        st = list(refs.get(n, ()))
+        while st:
+            x = st.pop()
+            if x == n:
+                return True
+            if x in seen:
+                continue
+            seen.add(x)
+            st += list(refs.get(x, ()))
+        return False
+    used = set()
+    for r in refs.values():
+        used |= r
+    return [nt.name for nt in g.nts if not nt.pub and not nt.params and nt.name in used and not reaches_self(nt.name)]
+
+
+def add_user_inline(rng, g, subset=None):
+    cand = inlinable(g)
+    if subset is None:
+        if not cand:
+            return []
+        subset = rng.sample(cand, rng.randint(1, min(3, len(cand))))
+    for nt in g.nts:
+        if nt.name in subset:
+            nt.inline = True
+    return subset
